@@ -148,7 +148,9 @@ BUILTIN_CONTAINER_METHODS = {
 }
 BUILTIN_MUTATORS = {"add", "remove", "pop", "discard", "clear", "update", "append", "extend", "insert", "sort",
                     "reverse", "setdefault", "popitem", "__setitem__", "__delitem__", "difference_update",
-                    "intersection_update", "symmetric_difference_update"}
+                    "intersection_update", "symmetric_difference_update",
+                    "__ior__", "__iand__", "__isub__", "__ixor__", "__iadd__", "__imul__", "__setattr__", "__delattr__", "fill", "resize", "put", "itemset",
+                    "appendleft", "extendleft", "popleft", "rotate", "move_to_end", "subtract"}
 IMMUTABLE_TYPES = {"str", "float", "int", "bool", "None", "Unit", "Segment", "tuple", "Path", "Callable", "bytes"}
 
 
